@@ -107,7 +107,22 @@ func (r *lcRun) pick(kind string, n int) int {
 type lcOther struct{ a, b int }
 
 func (r *lcRun) doFail(t *f1testing.T) {
-	switch r.pick("fail", 5) {
+	switch r.pick("fail", 6) {
+	case 5:
+		// the work is split over two helper goroutines that report on ONE channel, each guarded by CheckResults(t, done);
+		// the function waits for both and carries on; the quick one is fine, the slow one panics - which marks the
+		// failure without stopping the function that waited (a `fail` step, not an ending)
+		done := make(chan struct{})
+		go func() {
+			defer f1testing.CheckResults(t, done)
+		}()
+		go func() {
+			defer f1testing.CheckResults(t, done)
+			time.Sleep(3 * time.Millisecond)
+			panic(errors.New("planned panic in the slower of two helper goroutines"))
+		}()
+		<-done
+		<-done
 	case 0:
 		t.Fail()
 	case 1:
@@ -147,26 +162,12 @@ type lcUncomparable struct{ fields []string }
 func (e lcUncomparable) Error() string { return "planned uncomparable error" }
 
 func (r *lcRun) doPanic(t *f1testing.T) {
-	v := r.pick("panic", 14)
+	v := r.pick("panic", 13)
 	// every other behaviour panics the same way each time: the same worker recovers the same kind of value repeatedly
 	if r.stickyPanic >= 0 {
 		v = r.stickyPanic
 	}
 	switch v {
-	case 13:
-		// the work is split over two helper goroutines that report on ONE channel, each guarded by CheckResults(t, done);
-		// the function waits for both; the quick one is fine, the slow one panics
-		done := make(chan struct{})
-		go func() {
-			defer f1testing.CheckResults(t, done)
-		}()
-		go func() {
-			defer f1testing.CheckResults(t, done)
-			time.Sleep(3 * time.Millisecond)
-			panic(errors.New("planned panic in the slower of two helper goroutines"))
-		}()
-		<-done
-		<-done
 	case 11:
 		panic([]byte("planned panic with a byte slice"))
 	case 12:
